@@ -183,3 +183,7 @@ impl BitAndAssign<i32> for HitObjectType {
         self.0 &= rhs;
     }
 }
+
+#[cfg(maxohn_rosu_map_verif)]
+#[doc(hidden)]
+pub use self::{decode::verif_hooks as verif_decode, slider::curve::verif_hooks as verif_curve};
